@@ -33,6 +33,12 @@ impl WriteSource for pr::Expr {
     fn write(&self, mut opt: WriteOpt) -> Option<String> {
         let mut r = String::new();
 
+        if self.alias.is_some() && opt.context_strength > binding_strength_of_call() {
+            // an alias binds weaker than any operator: as an operand it needs its own parentheses
+            opt.binary_position = super::Position::Unspecified;
+            return self.write_between("(", ")", opt);
+        }
+
         if let Some(alias) = &self.alias {
             r += opt.consume(&write_ident_part(alias))?;
             r += opt.consume(" = ")?;
@@ -188,7 +194,12 @@ impl WriteSource for pr::ExprKind {
 
                     r += opt.consume(":")?;
 
-                    let arg = write_within(arg, self, opt.clone())?;
+                    let arg = if arg.alias.is_some() {
+                        // `n:x = a` would not be read as the value `x = a` of `n`
+                        arg.write_between("(", ")", opt.clone())?
+                    } else {
+                        write_within(arg, self, opt.clone())?
+                    };
                     r += opt.consume(&arg)?;
                 }
                 for arg in &func_call.args {
@@ -307,6 +318,11 @@ fn binding_strength(expr: &pr::ExprKind) -> u8 {
         // other nodes should not contain any inner exprs
         _ => 100,
     }
+}
+
+/// Binding strength of a function call: what an argument (which may carry an alias) is written in.
+fn binding_strength_of_call() -> u8 {
+    10
 }
 
 fn associativity(expr: &pr::ExprKind) -> super::Position {
